@@ -719,6 +719,8 @@ def apply_contract(I, c, args, kwargs, node):
     for cname, fn in c.requires:
         ctx.oblige("call-pre:%s:%s" % (c.short, cname), c.apply(fn, bound), where)
     old = c.snapshot(bound)
+    if getattr(c, "traced", False):
+        I.trace.append((c.short, dict(bound)))
     # exceptional exits
     for exc_cls, cond in c.raises.items():
         if cond is None:
